@@ -491,3 +491,107 @@ func checkClampValues(c *core.Ctx) {
 		}
 	}
 }
+
+// R03.32: a handler that hands its source through unchanged serves a move.
+func checkIdentityHandlers(c *core.Ctx, handlers []handlerRef) {
+	st := c.Rule("R03.32", "an instruction handler whose every destination write is the unmodified value it read from a source operand (WriteOperand(Dst, lane, ReadOperand(SrcN, lane')) with at most width conversions in between) is dispatched (decode table -> dispatch switch) only for data-movement mnemonics (mov, cmov, movk, movrel*, readlane, readfirstlane, writelane, swap): any other instruction handled that way is a stub that returns its input", 4)
+	move := regexp.MustCompile(`mov|readlane|readfirstlane|writelane|swap|permlane`)
+	seen := map[string]bool{}
+	for _, h := range handlers {
+		key := h.alu.pkg + "." + h.alu.typ + "." + h.name
+		if seen[key] {
+			continue
+		}
+		seen[key] = true
+		fn := c.SSAFunc(h.alu.pkg, h.alu.typ+"."+h.name)
+		if fn == nil {
+			continue
+		}
+		writes, identity := 0, 0
+		for _, b := range fn.Blocks {
+			for _, in := range b.Instrs {
+				cc := core.CallOf(in)
+				if cc == nil || !cc.IsInvoke() || cc.Method.Name() != "WriteOperand" || len(cc.Args) != 3 {
+					continue
+				}
+				writes++
+				v := cc.Args[2]
+				for {
+					if cv, ok := v.(*ssa.Convert); ok {
+						v = cv.X
+						continue
+					}
+					break
+				}
+				if call, ok := v.(*ssa.Call); ok && call.Call.IsInvoke() && call.Call.Method.Name() == "ReadOperand" {
+					identity++
+				}
+			}
+		}
+		if writes == 0 || identity != writes {
+			continue
+		}
+		// a selection (min, max, cndmask, cselect) also writes sources unchanged: only a
+		// handler that reads one single source operand is a copy
+		srcFields := map[string]bool{}
+		for _, b := range fn.Blocks {
+			for _, in := range b.Instrs {
+				cc := core.CallOf(in)
+				if cc == nil || !cc.IsInvoke() || len(cc.Args) == 0 {
+					continue
+				}
+				switch cc.Method.Name() {
+				case "ReadOperand", "ReadOperandBytes":
+					f := "?"
+					if u, ok := cc.Args[0].(*ssa.UnOp); ok {
+						if fa, ok := u.X.(*ssa.FieldAddr); ok {
+							f = fieldNameOf(fa)
+						}
+					}
+					srcFields[f] = true
+				case "VCC", "SCC":
+					srcFields[cc.Method.Name()] = true
+				}
+			}
+		}
+		if len(srcFields) != 1 {
+			continue
+		}
+		st.Instances++
+		c.MarkAnalysed(fn)
+		var bad []string
+		for _, n := range h.insts {
+			if !move.MatchString(baseMnemonic(n)) {
+				bad = append(bad, n)
+			}
+		}
+		// other dispatch entries of the same handler
+		for _, h2 := range handlers {
+			if h2.alu.pkg == h.alu.pkg && h2.alu.typ == h.alu.typ && h2.name == h.name {
+				for _, n := range h2.insts {
+					if !move.MatchString(baseMnemonic(n)) {
+						bad = append(bad, n)
+					}
+				}
+			}
+		}
+		bad = uniqueStrings(bad)
+		st.Ob(len(bad) == 0)
+		st.Sample("%s copies its source; dispatched for %v", key, h.insts)
+		if len(bad) > 0 {
+			c.ReportAt("R03.32", fn, fn.Pos(), "identity-handler:"+strings.Join(bad, "+"), fmt.Sprintf("%s writes its source operand to the destination unchanged but is dispatched for %s: the instruction returns its input instead of its result", core.FuncName(fn), strings.Join(bad, ", ")))
+		}
+	}
+}
+
+func uniqueStrings(in []string) []string {
+	m := map[string]bool{}
+	var out []string
+	for _, s := range in {
+		if !m[s] {
+			m[s] = true
+			out = append(out, s)
+		}
+	}
+	return out
+}
